@@ -128,6 +128,22 @@ def files(run, rng, quick):
             extra.append(cborgen.encode(cborgen.parse(data)[0], rng, 0.0, cborgen.unknown_member))
         except Exception:
             pass
+    # …and laid out as another writer may: every block an indefinite-length map (bf … ff), and the file array itself of
+    # indefinite length (9f … ff) - made by hand from the smallest files (only heads and breaks change), cut at every byte
+    for data, _ in sorted(out, key=lambda x: len(x[0]))[:(3 if quick else 10)]:
+        try:
+            top = cborgen.parse(data)[0]
+            blocks = top.children[2].children
+            if data[0] != 0x83 or any(not (0xa0 <= data[b.start] <= 0xb7) for b in blocks):
+                continue
+            pieces, pos = [], 0
+            for b in blocks:
+                pieces.append(data[pos:b.start] + b"\xbf" + data[b.start + 1:b.end] + b"\xff"); pos = b.end
+            v1 = b"".join(pieces) + data[pos:]
+            extra.append(v1)
+            extra.append(b"\x9f" + v1[1:] + b"\xff")
+        except Exception:
+            pass
     for d2, a in zip(extra, G.run_rd(["rd s " + d.hex() for d in extra])):
         if a and a.startswith("I ") and a.endswith(" EOF"):
             out.append((d2, a[2:])); run.count("files with unknown members")
@@ -178,6 +194,8 @@ def check(run):
                     cuts.add(c + d)
         if hdr_end <= 6000:
             cuts.update(range(0, hdr_end + 1))          # every byte of the file header and preamble
+        if len(data) <= 2500:
+            cuts.update(range(0, len(data) + 1))        # small files: every byte
         for _ in range(60 if quick else 1200):
             cuts.add(rng.randrange(0, len(data) + 1))
         cuts = sorted(cuts)
@@ -238,6 +256,10 @@ def check(run):
             if g != exp:
                 where = "header" if n < hdr_end else ("block-boundary" if n in ends else ("window" if any(abs(n - k * WIN) <= 16 for k in range(1, 6)) else "inside"))
                 sig = "cut:" + where
+                # (recorded finding, known_findings.txt) a file whose TOP-LEVEL array has indefinite length, cut directly before that
+                # array's closing break: every block is there, the reader reports the regular end (it never reads the outer break)
+                if data[0] == 0x9f and n == len(data) - 1 and g == dg(states[len(blocks)], " EOF"):
+                    sig = "cut:outer-break-missing"
                 if sig not in seen:
                     seen.add(sig)
                     full = G.run_rd(["rd s %s %d" % (data.hex(), n)])[0]
